@@ -9,6 +9,7 @@ from pyvc.registry import R
 from pyvc import classes as CL
 import specs.seqdict   # noqa: F401  (registers syntax.for, extended below)
 
+utf8 = z3.Function("utf8_encode", StrS, BytesS)
 is_class = z3.Function("is_class", U, BoolS)
 instance_of = z3.Function("instance_of", U, U, BoolS)
 u_getitem = z3.Function("u_getitem", U, U, U)
@@ -64,6 +65,8 @@ def user_call(E, st, target, args, kwargs, kind="user_call"):
     if cnt is not None:
         st.ghost["user_calls"] = VInt(cnt.e + 1)
     out = [may_raise(E, st, kind)]
+    if c is not None and hasattr(c, "user_call_may_raise") and not c.user_call_may_raise(E, st, target, kind):
+        out = []
     res = VOpaque(fresh("result_of_" + kind, U))
     st.trace.append("%s returns" % kind)
     if c is not None and hasattr(c, "after_user_call"):
@@ -284,7 +287,7 @@ def u_encode(E, st, recv, args, kw):
     out = []
     for s2, ok in E.branch(st, is_str(recv.e)):
         if ok:
-            out.append(Res(s2, VBytes(fresh("encoded", BytesS))))
+            out.append(Res(s2, VBytes(utf8(unbox_str(recv.e)))))
         else:
             out.append(E.raise_(s2, "builtins.AttributeError"))
     return out
